@@ -22,7 +22,7 @@ FAIL_MSGS = ('postcondition not satisfied', 'precondition not satisfied', 'asser
              'cannot show', 'failed to satisfy', 'might not', 'not satisfied')
 UNDECIDED_MSGS = ('rlimit', 'resource limit', 'timed out', 'timeout', 'canceled', 'unknown')
 
-TRUST_RX = re.compile(r'\b(assume_specification|external_body|external_type_specification|external_fn_specification|admit\s*\(|assume\s*\(|axiom|TRUSTED-DECL|accept_recursive_types|external\b)')
+TRUST_RX = re.compile(r'\b(assume_specification|external_body|external_type_specification|external_fn_specification|admit\s*\(|assume\s*\(|axiom|TRUSTED-DECL|accept_recursive_types|external\b|exec_allows_no_decreases_clause)')
 
 
 def unit_templates():
